@@ -383,7 +383,88 @@ fn rendezvous_witness(frag: Option<String>) -> i32 {
             }
         }
     }
-    let out = json!({"engine":"E4 real-rayon witness","what":"rendezvous of w side-by-side systems on the unmodified crate and a real rayon pool of w threads (bounded wait of 10 s, one retry), 2 dispatches","configurations": results.len(), "failures": failures, "results": results, "wall_s": t0.elapsed().as_secs_f64()});
+    // groups of SEVERAL systems: group 0 is [a very short writer of a resource, a reader of it that takes part in the
+    // rendezvous]; the other w-1 groups are single systems.  Between the two systems of group 0 its worker must not
+    // start a sibling group on its own stack (the sibling would wait for the reader underneath it).  The pool is idle
+    // (its workers asleep) when each dispatch begins, and has w .. w+2 threads.
+    {
+        #[derive(Default)]
+        struct Rx(#[allow(dead_code)] u32);
+        struct Pre;
+        impl<'a> System<'a> for Pre {
+            type SystemData = shred::Write<'a, Rx>;
+            fn run(&mut self, _: Self::SystemData) {}
+            fn running_time(&self) -> shred::RunningTime {
+                shred::RunningTime::VeryShort
+            }
+        }
+        struct MeetR(Meet);
+        impl<'a> System<'a> for MeetR {
+            type SystemData = shred::Read<'a, Rx>;
+            fn run(&mut self, _: Self::SystemData) {
+                self.0.run(())
+            }
+            fn running_time(&self) -> shred::RunningTime {
+                shred::RunningTime::Short
+            }
+        }
+        for w in [2usize, 3, 4] {
+            for extra in [0usize, 2] {
+                for mode in ["dispatch", "async"] {
+                    if failures >= 3 {
+                        // enough witnesses: every further failing configuration costs two bounded waits
+                        continue;
+                    }
+                    for attempt in 0..2 {
+                        let failed = Arc::new(AtomicBool::new(false));
+                        let round = Arc::new(AtomicU32::new(0));
+                        let state = Arc::new((Mutex::new((0usize, 0u64)), Condvar::new()));
+                        let pool = Arc::new(rayon::ThreadPoolBuilder::new().num_threads(w + extra).build().unwrap());
+                        let mut b = DispatcherBuilder::new();
+                        b.add_pool(pool.clone());
+                        let mk = || Meet { state: state.clone(), w, failed: failed.clone(), round: round.clone() };
+                        b.add(Pre, "pre", &[]);
+                        for i in 1..w {
+                            b.add(mk(), &format!("m{}", i), &[]);
+                        }
+                        b.add(MeetR(mk()), "reader", &[]);
+                        let plan = format!("{:?}", b);
+                        let expected_layout = plan.matches("par![").count() == 1 && plan.matches("seq![").count() == w + 1;
+                        if std::env::var("VERIF_DEBUG_PLAN").is_ok() {
+                            eprintln!("{}", plan);
+                        }
+                        let mut world = World::empty();
+                        world.insert(Rx(0));
+                        if mode == "async" {
+                            let mut ad = b.build_async(world);
+                            for r in 1..=4 {
+                                std::thread::sleep(Duration::from_millis(20));
+                                round.store(r, Ordering::SeqCst);
+                                ad.dispatch();
+                                ad.wait();
+                            }
+                        } else {
+                            let mut d = b.build();
+                            for r in 1..=4 {
+                                std::thread::sleep(Duration::from_millis(20));
+                                round.store(r, Ordering::SeqCst);
+                                d.dispatch(&world);
+                            }
+                        }
+                        let bad = failed.load(Ordering::SeqCst) && expected_layout;
+                        if !bad || attempt == 1 {
+                            results.push(json!({"width": w, "pool_threads": w + extra, "mode": format!("{} / first group of two systems", mode), "layout_as_expected": expected_layout, "all_inside_run_at_once": !bad}));
+                            if bad {
+                                failures += 1;
+                            }
+                            break;
+                        }
+                    }
+                }
+            }
+        }
+    }
+    let out = json!({"engine":"E4 real-rayon witness","what":"rendezvous of w side-by-side systems on the unmodified crate and a real rayon pool of w threads (bounded wait of 10 s, one retry), 2 dispatches; and of w groups whose first holds two systems (a very short writer, then a reader that takes part) on idle pools of w and w+2 threads, 4 dispatches","configurations": results.len(), "failures": failures, "results": results, "wall_s": t0.elapsed().as_secs_f64()});
     if let Some(p) = frag {
         std::fs::write(p, serde_json::to_string_pretty(&out).unwrap()).unwrap();
     }
